@@ -1442,3 +1442,24 @@ val kf1_restorable : term -> bool
 val kf1_C11_narrow : term -> bool
 
 val kf3b_C11 : term -> bool
+
+type row_claim =
+| Unwrapped
+| Keeps
+| NoClaim
+
+val extent_claim : nat -> nat -> nat -> row_claim
+
+val is_edit : func -> bool
+
+val claim_at : term -> func -> nat -> row_claim
+
+val row_ok : row_claim -> line -> line -> bool
+
+val holds_C07_wrapmark : vt -> func -> vt -> bool
+
+val kf1_C07 : vt -> func -> bool
+
+val wrapmark_kept : vt -> func -> vt -> bool
+
+val kf1_C17 : vt -> func -> bool
